@@ -388,6 +388,21 @@ def _unique_match(run: Run, fi: FuncInfo, mod) -> None:
             run.violation("R11.4", mod, fi.qualname, "exact-match / str guards before case-fold", f"case-fold reachable without the exact-match guard ({exact_ok}) or the isinstance(str) guard ({str_ok})", line=rn.lineno)
 
 
+def flag_vars(fi, flags) -> set[str]:
+    """locals/parameters that hold the caller's boolean flag: a parameter named <flag>, or the single binding
+    `<v> = <params>.get("<flag>"[, False])` - identified by where the value comes from, not by the local's name"""
+    out: set[str] = set()
+    for fl in flags:
+        if fl in [a.arg for a in fi.node.args.args + fi.node.args.kwonlyargs]:
+            out.add(fl)
+    for a in walk_no_nested(fi.node):
+        if isinstance(a, ast.Assign) and len(a.targets) == 1 and isinstance(a.targets[0], ast.Name) and isinstance(a.value, ast.Call) and isinstance(a.value.func, ast.Attribute) and a.value.func.attr == "get" and a.value.args and isinstance(a.value.args[0], ast.Constant) and a.value.args[0].value in flags and (len(a.value.args) < 2 or (isinstance(a.value.args[1], ast.Constant) and a.value.args[1].value is False)):
+            v = a.targets[0].id
+            if len(list(_assignments(fi, v))) == 1:
+                out.add(v)
+    return out
+
+
 def _gating(run: Run, res: Resolver, am: AstModel, rule: str = "R11.6") -> None:
     sites = [("mcp.validate", "ValidateTool.execute", ("fix",)), ("mcp.write", "WriteTool.execute", ("lenient",)), ("cli.main", "validate", ("fix",))]
     total = 0
@@ -405,18 +420,23 @@ def _gating(run: Run, res: Resolver, am: AstModel, rule: str = "R11.6") -> None:
                     run.instance(rule, fi.module.loc(n), f"{fi.qualname}: repair() called with fix={'<caller flag>' if fix_passthrough else 'default False'}", ok=True)
                     continue
                 flags = entry[0][2] if entry else ()
+                # the flag is identified by where it comes from, not by the local's name: a parameter called <flag>, or the
+                # single binding `<v> = params.get("<flag>"[, False])`
+                flagvars: set[str] = set()
+                for fl in flags:
+                    if fl in [a.arg for a in fi.node.args.args + fi.node.args.kwonlyargs]:  # type: ignore[attr-defined]
+                        flagvars.add(fl)
+                for a in walk_no_nested(fi.node):
+                    if isinstance(a, ast.Assign) and len(a.targets) == 1 and isinstance(a.targets[0], ast.Name) and isinstance(a.value, ast.Call) and isinstance(a.value.func, ast.Attribute) and a.value.func.attr == "get" and a.value.args and isinstance(a.value.args[0], ast.Constant) and a.value.args[0].value in flags and (len(a.value.args) < 2 or (isinstance(a.value.args[1], ast.Constant) and a.value.args[1].value is False)):
+                        v = a.targets[0].id
+                        if len(list(_assignments(fi, v))) == 1:
+                            flagvars.add(v)
                 ok = False
                 for x in nodes:
                     for t, val in branch_conditions(cfg, x):
                         ops = t.values if isinstance(t, ast.BoolOp) and isinstance(t.op, ast.And) else [t]
-                        if val is True and any(isinstance(o, ast.Name) and o.id in flags for o in ops):
+                        if val is True and any(isinstance(o, ast.Name) and o.id in flagvars for o in ops):
                             ok = True
-                # the flag variable is the tool parameter
-                if ok and entry:
-                    fl = flags[0]
-                    binds = list(_assignments(fi, fl))
-                    is_param = fl in [a.arg for a in fi.node.args.args]  # type: ignore[attr-defined]
-                    ok = is_param or (len(binds) == 1 and isinstance(binds[0][1], ast.Call) and isinstance(binds[0][1].func, ast.Attribute) and binds[0][1].func.attr == "get" and binds[0][1].args and isinstance(binds[0][1].args[0], ast.Constant) and binds[0][1].args[0].value == fl and (len(binds[0][1].args) < 2 or (isinstance(binds[0][1].args[1], ast.Constant) and binds[0][1].args[1].value is False)))
                 run.instance(rule, fi.module.loc(n), f"{fi.qualname}: repair(fix=True) is control-dependent on the caller's {'/'.join(flags) or '?'} flag (default False)", ok=ok)
                 if not ok:
                     run.violation(rule, fi.module, fi.qualname, n, "repair(..., fix=True) is reachable without the user's fix/lenient flag being set (values would change with fix off)")
@@ -475,8 +495,18 @@ def _inline_meta_casefold(run: Run, res: Resolver, am: AstModel) -> None:
                     for _, v in _assignments(fi, tt.args[0].id):
                         if isinstance(v, ast.Call) and ast.unparse(v.func).endswith(".meta.get") and ast.dump(v.args[0]) == ast.dump(key):
                             cur = tt.args[0].id
-            lo, hi = interval_from_conditions(conds, "len(matches)")
-            lenient = any(val is True and "lenient" in names_in(t) for t, val in conds)
+            # the list whose single element is stored: <stored> = <M>[0]
+            mvar = "matches"
+            rhs = st.value if isinstance(st, ast.Assign) else None
+            if isinstance(rhs, ast.Name):
+                for _, v in _assignments(fi, rhs.id):
+                    if isinstance(v, ast.Subscript) and isinstance(v.value, ast.Name) and isinstance(v.slice, ast.Constant) and v.slice.value == 0:
+                        mvar = v.value.id
+            elif isinstance(rhs, ast.Subscript) and isinstance(rhs.value, ast.Name):
+                mvar = rhs.value.id
+            lo, hi = interval_from_conditions(conds, f"len({mvar})")
+            lvars = flag_vars(fi, ("lenient",))
+            lenient = any(val is True and (lvars & names_in(t)) for t, val in conds)
             ok = cur is not None and (lo, hi) == (1, 1) and lenient
             run.instance("R11.7", fi.module.loc(node), f"WriteTool.execute: `{norm(st)}` only for an existing str META value, unique match [{lo},{hi}], under lenient", ok=ok)
             if not ok:
